@@ -130,7 +130,8 @@ prop('C10', title='Link-layer envelopes are transparent: Nack, PIT token and wra
      level_text='Unbounded proof: parse_lp_packet_v2 rejects a recognised FragIndex/FragCount and raises only documented errors; _receive '
                 'dispatches at most once per packet and a Nack header leads to _on_nack only; the reply of an Interest that arrived with a '
                 'PIT token is 64 L (62 |t| t)(50 |d| d) with identical token and unmodified payload (LpPacket unrolled), bare without token.',
-     level_note='Nack encode layout / reason codes up to 2^64-1 and several tokens in all orders are bounded.',
+     level_note='make_network_nack: exact layout 64 L (fd0320 n (fd0321 w r))(50 |i| i) for every reason < 2^64 and every Interest '
+                '(LpPacket unrolled) is proved as well; table-level Nack handling: see C03. Several tokens in all orders are bounded.',
      technique=T_MIXED)
 
 prop('C11', title='A compiled trust schema matches exactly the names its source text describes', level='exploration',
